@@ -45,7 +45,7 @@ ASSUMPTIONS = ["the unrelaxed link is the same real link with jump relocation ty
                "instruction lengths in the relaxed output are read from the bytes (inst[1:0] != 11 <=> 16 bit, ISA manual 1.5)",
                "a failing unrelaxed link is a premise failure (nothing claimed on that path)"]
 SHIMS_USED = ["isinstance", "int", "range", "bytes", "bytearray", "bool"]
-JOB_TIMEOUT = {"quick": 600, "thorough": 1800}
+JOB_TIMEOUT = {"quick": 900, "thorough": 3600}
 
 _ARCH = {}
 
